@@ -154,6 +154,8 @@ class Theory:
         is associated to arity n.
 
         """
+        if self.has_type_sig(name) and self.get_type_sig(name) != n:
+            raise TheoryException("Type %s already exists with arity %s" % (name, self.get_type_sig(name)))
         self.add_data("type_sig", name, n)
 
     def has_type_sig(self, name):
